@@ -98,6 +98,8 @@ def run(ctx):
                          % (_x, _d), _n)
     if not _ng:
         rep.held('R12.18', ('petl.transform', '*'), 'no None test on .get() of a caller-supplied mapping', '', None)
+    rep.rule('R12.19', 'a field name is resolved to the FIRST column of that name (asindices, Record, hdr.index): no name -> position map built from the header lets a later column of the same name win')
+    ctx.attempt(r1219, ctx, rep)
     from .common import check_fill_mismatches as _fills
     rep.rule('R12.16', 'where tables of unequal length are zipped, the test for the exhausted side compares with the fill value handed to zip_longest')
     ctx.floor('zip_longest_functions', ctx.attempt(_fills, ctx, rep, 'R12.16', ctx.functions(['petl.transform', 'petl.util'])) or 0, 2)
@@ -163,6 +165,17 @@ def _len_guarded(pm, node, fn_node):
                 return (not res) if neg else res
         return None
     for p, c in enclosing(pm, node, stop=fn_node):
+        # a guard clause earlier in the same block: `if len(row) <= i: continue` (or return / break / raise)
+        for fld in ('body', 'orelse', 'finalbody'):
+            blk = getattr(p, fld, None)
+            if isinstance(blk, list) and any(c is b for b in blk):
+                for sib in blk:
+                    if sib is c:
+                        break
+                    if isinstance(sib, ast.If) and not sib.orelse and sib.body and \
+                            isinstance(sib.body[-1], (ast.Continue, ast.Return, ast.Break, ast.Raise)) and \
+                            within(sib.test) is False:
+                        return True
         if isinstance(p, (ast.If, ast.IfExp)):
             w = within(p.test)
             in_body = (p.body is c) if isinstance(p, ast.IfExp) else any(c is b for b in p.body)
@@ -710,3 +723,79 @@ def r1214(ctx, rep):
                      'simultaneous rename does' % hv, bad[0])
     else:
         rep.held('R12.14', fn, 'output header built from the input names', '', fn.node)
+
+
+# ------------------------------------------------------------------------ R12.19
+def r1219(ctx, rep):
+    """`dict((f, i) for i, f in enumerate(hdr))` / `{f: i for i, f in enumerate(hdr)}` / `d[f] = i` in a loop over
+    enumerate(hdr): with a duplicated field name the LAST column wins, while every other resolution of a name in petl takes
+    the first.  A map that keeps the first (setdefault, `if f not in d`, reversed enumeration) is fine."""
+    from .common import analysed
+    from .sortapp import _single_assign
+    n = 0
+
+    def header_like(fn, fa, stmt, e, depth=0):
+        try:
+            st = fa.state_before(stmt)
+            v = fa.eval_pure(e, st) if st is not None else None
+        except Exception:
+            v = None
+        if v and any(a[0] == 'HDR' for a in v):
+            return True
+        if depth < 3:
+            for x in ast.walk(e):
+                if isinstance(x, ast.Name):
+                    for a in own_nodes(fn.node):
+                        if isinstance(a, ast.Assign) and any(isinstance(t, ast.Name) and t.id == x.id for t in a.targets) and \
+                                a.value is not e and header_like(fn, fa, a, a.value, depth + 1):
+                            return True
+        return False
+
+    def enum_of(gen):
+        it = gen.iter
+        if isinstance(it, ast.Call) and isinstance(it.func, ast.Name) and it.func.id == 'enumerate' and it.args and \
+                isinstance(gen.target, ast.Tuple) and len(gen.target.elts) == 2 and \
+                all(isinstance(t, ast.Name) for t in gen.target.elts) and not gen.ifs:
+            return it.args[0], gen.target.elts[0].id, gen.target.elts[1].id
+        return None
+    for fn in ctx.functions(['petl.transform', 'petl.util']):
+        cands = []
+        for stmt in fn.node.body if False else list(own_nodes(fn.node)):
+            if isinstance(stmt, ast.DictComp) and len(stmt.generators) == 1:
+                en = enum_of(stmt.generators[0])
+                if en and norm(stmt.key) == en[2] and norm(stmt.value) == en[1]:
+                    cands.append((stmt, en[0]))
+            elif isinstance(stmt, ast.Call) and isinstance(stmt.func, ast.Name) and stmt.func.id in ('dict', 'OrderedDict') and \
+                    len(stmt.args) == 1 and isinstance(stmt.args[0], (ast.GeneratorExp, ast.ListComp)) and \
+                    len(stmt.args[0].generators) == 1 and isinstance(stmt.args[0].elt, ast.Tuple) and len(stmt.args[0].elt.elts) == 2:
+                en = enum_of(stmt.args[0].generators[0])
+                if en and norm(stmt.args[0].elt.elts[0]) == en[2] and norm(stmt.args[0].elt.elts[1]) == en[1]:
+                    cands.append((stmt, en[0]))
+            elif isinstance(stmt, ast.For) and isinstance(stmt.iter, ast.Call) and isinstance(stmt.iter.func, ast.Name) and \
+                    stmt.iter.func.id == 'enumerate' and stmt.iter.args and isinstance(stmt.target, ast.Tuple) and \
+                    len(stmt.target.elts) == 2 and all(isinstance(t, ast.Name) for t in stmt.target.elts):
+                i, f = stmt.target.elts[0].id, stmt.target.elts[1].id
+                if len(stmt.body) == 1 and isinstance(stmt.body[0], ast.Assign) and len(stmt.body[0].targets) == 1 and \
+                        isinstance(stmt.body[0].targets[0], ast.Subscript) and norm(stmt.body[0].targets[0].slice) == f and \
+                        norm(stmt.body[0].value) == i:
+                    cands.append((stmt, stmt.iter.args[0]))
+        if not cands:
+            continue
+        fa, events = analysed(ctx, fn)
+        pm = None
+        for node, src in cands:
+            # the statement the expression sits in
+            from ..absint import parent_map
+            pm = pm or parent_map(fn.node)
+            stmt = node
+            while stmt in pm and not isinstance(stmt, ast.stmt):
+                stmt = pm[stmt]
+            if not header_like(fn, fa, stmt, src):
+                continue
+            n += 1
+            rep.violated('R12.19', fn, norm(node)[:70],
+                         'this maps every field name to the LAST column of that name; asindices / Record / hdr.index resolve a '
+                         'name to the first one, so with a duplicated field name the operator changes a column it was not asked '
+                         'to change and leaves the requested one as it is', node)
+    if not n:
+        rep.held('R12.19', ('petl.transform', '*'), 'no last-wins map from field names to positions', '', None)
